@@ -188,8 +188,12 @@ def check_case(case):
                 got = p.seconds_since_unix_epoch
                 true = M.kw_instant(cm, kw) - epoch
                 ok = set()
-                for t in ((true,) if true.denominator == 1 else
-                          (true - M.US, true, true + M.US)):
+                # decimal forms are held as binary floats by the library, also
+                # when the fraction happens to be zero (T00,0+56:03): the
+                # count is evaluated within 1 microsecond of the instant
+                float_form = any(k.endswith("_decimal") for k in kw)
+                for t in ((true,) if true.denominator == 1 and not float_form
+                          else (true - M.US, true, true + M.US)):
                     lo = t.numerator // t.denominator       # floor
                     ok.add(lo)
                     if t < 0 and t != lo:
